@@ -126,6 +126,23 @@ let seqinfo (t : ev) (ts : sx list) : sx =
      L (A "ranges" :: List.map (fun (a, b) -> L [sz a; sz b]) (ranges cs));
      L (A "index" :: List.map (fun x -> match index_at cs (zi x) with None -> A "none" | Some i -> sn i) ts)]
 
+(* C01: every container of the tree reports its derived time data; the query times for the
+   lookup are derived from the node by a fixed rule (each start -1/+0/+1, -1, dur-1, dur, dur+1) *)
+let query_times (cs : ev list) : int list =
+  let st = List.map int_of_z (starts cs) in
+  let d = int_of_z (dsum cs) in
+  List.sort_uniq compare (List.concat_map (fun s -> [s - 1; s; s + 1]) st @ [-1; d - 1; d; d + 1])
+let rec deep (e : ev) : sx list =
+  match e with
+  | Leaf _ -> []
+  | Seq (_, cs) ->
+      L [A "s"; sz (dur e);
+         L (List.map sz (starts cs));
+         L (List.map (fun (a, b) -> L [sz a; sz b]) (ranges cs));
+         L (List.map (fun t -> match index_at cs (z_of_int t) with None -> A "none" | Some i -> sn i) (query_times cs))]
+      :: List.concat_map deep cs
+  | Sim (_, cs) -> L [A "p"; sz (dur e)] :: List.concat_map deep cs
+
 let eval (x : sx) : sx =
   match x with
   | L [A "dur"; t] -> L [A "ok"; sz (dur (tree t))]
@@ -143,6 +160,15 @@ let eval (x : sx) : sx =
            | Err k -> List.rev (L [A "err"; A (err_name k)] :: acc)) in
       L (A "hist" :: go (tree t) ops [])
   | L (A "op" :: t :: [op]) -> rtree (apply_op (tree t) op)
+  | L (A "c01" :: t :: ops) ->
+      let t0 = tree t in
+      let rec go (cur : ev) (ops : sx list) : (ev, err) result =
+        match ops with
+        | [] -> Stdlib.Ok cur
+        | op :: r -> (match apply_op cur op with Ok e -> go e r | Err k -> Stdlib.Error k) in
+      (match go t0 ops with
+       | Stdlib.Ok e -> L [A "c01"; L (A "pre" :: deep t0); L (A "post" :: deep e); stree e]
+       | Stdlib.Error k -> L [A "c01"; L (A "pre" :: deep t0); L [A "err"; A (err_name k)]])
   | _ -> failwith ("unknown case " ^ show x)
 
 let () =
